@@ -147,6 +147,41 @@ def run(ctx, ck) -> None:
             ok = t == ('call', ('attr', W, 'pixel2index'), (('star', ('call', ('attr', W, 'world2pixel'), (th, ph), ())),), ())
     ck.expect('P3', ok, w2i or sl.node, 'world2index = pixel2index(*world2pixel(theta, phi))', f'world2index returns {show(t)}', instance='composition')
 
+    # ------------------------------------------------------------------ P6 shape / pixel_shape / size bookkeeping
+    base_l = table.get(f'{LAND}.Landscape')
+    ln = base_l.own.get('__len__')
+    t = term(ln.body[-1].value) if isinstance(ln, ast.FunctionDef) and isinstance(ln.body[-1], ast.Return) else None
+    ck.expect('P6', isinstance(ln, ast.FunctionDef) and t == ('call', ('attr', ('var', 'math'), 'prod'), (('attr', ('var', ln.args.args[0].arg), 'shape'),), ()), ln or base_l.node,
+              'len(landscape) = prod(shape): the number of pixels', f'Landscape.__len__ returns {show(t)}', instance='pixel count')
+    init = sl.own.get('__init__')
+    ok6 = False
+    why6 = 'constructor vanished'
+    if isinstance(init, ast.FunctionDef):
+        I0 = ('var', init.args.args[0].arg)
+        stores = {}
+        env6: dict = {}
+        for st in init.body:
+            if isinstance(st, ast.Assign):
+                tgt = st.targets[0]
+                if isinstance(tgt, ast.Attribute) and isinstance(tgt.value, ast.Name) and tgt.value.id == init.args.args[0].arg:
+                    stores[tgt.attr] = term(st.value, env6)
+                else:
+                    env6 = path_env(Path([('stmt', st)]), env6)
+        rev = lambda x: ('sub', x, ('slice', ('none',), ('none',), ('unop', 'neg', ('const', '1'))))  # noqa: E731
+        shape_t = ('ifexp', ('cmp', 'is', ('var', 'pixel_shape'), ('const', 'None')), ('var', 'shape'), rev(('var', 'pixel_shape')))
+        sup = [term(n) for n in ast.walk(init) if isinstance(n, ast.Call) and 'super().__init__' in ast.unparse(n.func)]
+        ok6 = stores.get('pixel_shape') == rev(shape_t) and any(c[2] and c[2][0] == ('var', 'shape') for c in sup) and env6.get('shape') == shape_t
+        why6 = f'pixel_shape = {show(stores.get("pixel_shape"))}, shape = {show(env6.get("shape"))}'
+    ck.expect('P6', ok6, init or sl.node, 'shape is the given shape (or the reversed pixel_shape) and pixel_shape is shape reversed: the first pixel coordinate indexes the last (fastest) array axis',
+              f'the shape / pixel_shape bookkeeping changed: {why6}', instance='pixel_shape = shape[::-1]')
+    hinit = hp.own.get('__init__')
+    ok7 = False
+    if isinstance(hinit, ast.FunctionDef):
+        e7 = path_env(Path([('stmt', st) for st in hinit.body if isinstance(st, ast.Assign) and isinstance(st.targets[0], ast.Name)]))
+        nside = ('var', hinit.args.args[1].arg)
+        ok7 = e7.get('shape') == ('tuple', ('binop', '*', ('const', '12'), ('binop', '**', nside, ('const', '2'))))
+    ck.expect('P6', ok7, hinit or hp.node, 'a HEALPix map has 12 * nside**2 pixels', 'the HEALPix map shape is no longer (12 * nside**2,)', instance='healpix pixel count')
+
     # ------------------------------------------------------------------ P4
     cov = sl.own.get('get_coverage')
     ok = False
